@@ -51,8 +51,8 @@ def run(prop, repo):
     failing = []
     for t in failed:
         eid = next((e["id"] for e in es if e["filter"] in t.split("::")[-1]), "?")
-        m = re.search(r"thread '%s' panicked at ([^\n]*)\n([^\n]*)" % re.escape(t), out)
-        failing.append({"id": eid, "test": t, "message": (m.group(1) + " " + m.group(2))[:500] if m else ""})
+        m = re.search(r"thread '%s'[^\n]*panicked at ([^\n]*)\n((?:[^\n]*\n){1,6})" % re.escape(t), out)
+        failing.append({"id": eid, "test": t, "message": (m.group(1) + " " + " | ".join(x.strip() for x in m.group(2).split("\n") if x.strip()))[:600] if m else ""})
     return ran, failing, out
 
 
